@@ -12,24 +12,18 @@ mkdir -p "$OUT"
 cp "$SRC/patch.diff" "$OUT/"
 [ -f "$SRC/demo_test.go" ] && cp "$SRC/demo_test.go" "$OUT/demo_test.go.txt"
 [ -d "$SRC/demo" ] && cp -r "$SRC/demo" "$OUT/demo"
-DET=$(/verif/tools/try_patch.sh "$SRC/patch.diff" 2>&1)
-python3 - "$SRC/meta.json" "$OUT/meta.json" "$CONF" "$PROP" <<PY
-import json,sys,re
-src,out,conf,prop=sys.argv[1:5]
+DET=$(/verif/tools/detect.py "$SRC/patch.diff")
+python3 - "$SRC/meta.json" "$OUT/meta.json" "$CONF" "$PROP" "$DET" <<'PY'
+import json,sys
+src,out,conf,prop,det=sys.argv[1:6]
 try: m=json.load(open(src))
 except Exception: m={}
-det="""$DET"""
-by={}
-cur=None
-for line in det.splitlines():
-    mm=re.match(r"== (C\d+) exit=(\d+)",line)
-    if mm: cur=mm.group(1); by[cur]={"exit":int(mm.group(2)),"reports":[]}
-    elif cur and line.startswith(("violated","undecided")): by[cur]["reports"].append(line[:300])
+by=json.loads(det or "{}")
 meta={"property":prop,"summary":m.get("summary"),"breaks":m.get("breaks"),"needs":m.get("needs"),"files":m.get("files"),
  "author_ran":m.get("ran"),"confirmed":json.loads(conf),
  "confirmed_how":"tools/confirm_mutant.sh: scratch worktree of /repo HEAD; go build ./...; go test -vet=off -count=1 ./... with the patch; demonstration run with the patch (must fail) and without it (must pass)",
- "detected_by":{k:v for k,v in by.items() if v["exit"]!=0},
- "own_property_check_exit":by.get(prop,{}).get("exit")}
+ "detected_by":by,
+ "own_property_check_exit":by.get(prop,{}).get("exit",0)}
 json.dump(meta,open(out,"w"),indent=1)
-print("detected by:",[k for k,v in by.items() if v["exit"]!=0])
+print("detected by:",sorted(by))
 PY
